@@ -215,6 +215,9 @@ func (b BlobSpec) String() string {
 
 var blobValues = [][]byte{
 	[]byte("v"), []byte("short-value"), pattern(100, 3), []byte("second"), pattern(300, 9), []byte("x"), pattern(40, 1), []byte("last-value"),
+	// values of EQUAL length in different blocks: a value sliced out of the wrong (stale) block
+	// passes every length check
+	pattern(40, 2), []byte("w"), pattern(100, 4), pattern(300, 5),
 }
 
 func buildBlob(s BlobSpec) ([]byte, [][2]uint32, error) {
@@ -278,6 +281,35 @@ func observeBlob(data []byte, handles [][2]uint32) (o observation) {
 		}
 	}()
 	o.groups = append(o.groups, g)
+	// all values through ONE fetcher that keeps going after errors: every handle is fetched twice in
+	// a row (a caller retrying after an error), in handle order and then in reverse order; whatever a
+	// failed read leaves behind in the fetcher must not make a later fetch return another block's
+	// bytes. One group per (handle, attempt): each either reports an error or equals the baseline.
+	func() {
+		var f blob.ValueFetcher
+		f.Init(identityMapping{}, oneReader{r}, block.ReadEnv{}, 1)
+		defer f.Close()
+		order := make([]int, 0, 2*len(handles))
+		for i := range handles {
+			order = append(order, i)
+		}
+		for i := len(handles) - 1; i >= 0; i-- {
+			order = append(order, i)
+		}
+		for pos, i := range order {
+			h := handles[i]
+			for attempt := 1; attempt <= 2; attempt++ {
+				g := group{name: fmt.Sprintf("sticky-fetcher step %d attempt %d: fetch(block %d, value %d)", pos, attempt, h[0], h[1])}
+				v, _, err := f.Fetch(ctx, base.BlobFileID(7), blob.BlockID(h[0]), blob.BlockValueID(h[1]))
+				if err != nil {
+					g.err = err.Error()
+				} else {
+					g.items = append(g.items, fmt.Sprintf("%x", v))
+				}
+				o.groups = append(o.groups, g)
+			}
+		}
+	}()
 	// every value through a fresh fetcher
 	for i, h := range handles {
 		g := group{name: fmt.Sprintf("fetch(block %d, value %d)", h[0], h[1])}
